@@ -152,6 +152,7 @@ inline void common_labels(CaseResult &res, const KeyMeta &meta) {
     if (meta.seam_surgery) res.label("seam_surgery");
     if (meta.top_reached) res.label("has_max_minus_1");
     if (meta.starts_lowest) res.label("starts_at_0");
+    if (meta.excluded_known) res.label("excluded_known_KF4_run_of_2^24_or_more_capped");
 }
 
 template<typename K>
